@@ -157,12 +157,12 @@ const (
 	d128MinExp = -6143 // smallest normal 10^-6143
 )
 
-// d128Slack = 1.04e6145: just above the largest magnitude the package's
-// 113-bit coefficient can hold ((2^113-1) x 10^6111 = 1.0384...e6145).
-var d128Slack = func() *big.Rat {
-	r := new(big.Rat).SetInt(new(big.Int).Exp(big.NewInt(10), big.NewInt(6143), nil))
-	return r.Mul(r, big.NewRat(104, 1))
-}()
+// d128Slack = 1e6146. The decimal128 package represents more than the IEEE
+// range: its coefficient may exceed 34 digits, and magnitudes somewhat above
+// 1.2e6145 are still finite (1.5e6145 is not). Exact results in
+// [1e6145, 1e6146) are therefore not judged (an error and an accurate finite
+// value are both acceptable there); from 1e6146 on an overflow error is required.
+var d128Slack = new(big.Rat).SetInt(new(big.Int).Exp(big.NewInt(10), big.NewInt(6146), nil))
 
 // exactlyRepresentable: x is a decimal with <= 34 significant digits inside
 // the normal range of decimal128.
@@ -307,7 +307,13 @@ func TestC05_Arith(t *testing.T) {
 					q := new(big.Rat).Quo(a.r, b.r)
 					qi := new(big.Int).Quo(q.Num(), q.Denom())
 					qr := new(big.Rat).SetInt(qi)
-					if !exactlyRepresentable(qr) {
+					if op == "//" && new(big.Rat).Abs(q).Cmp(d128Slack) >= 0 {
+						// the integer quotient lies beyond the decimal range:
+						// an overflow, to be reported like that of any other
+						// operator
+						expErr = model.NaN
+						label += "/overflow"
+					} else if !exactlyRepresentable(qr) {
 						undet = "integer-quotient-beyond-34-digits"
 					} else if op == "//" {
 						exact = qr
@@ -421,19 +427,16 @@ func TestC05_Arith(t *testing.T) {
 			c.Skip(undet)
 			return
 		}
+		band := false
 		// range: overflow must be an error; underflow is not judged
 		if exact != nil && exact.Sign() != 0 {
 			lf := log10Floor(exact)
 			if lf == d128MaxExp+1 && new(big.Rat).Abs(exact).Cmp(d128Slack) < 0 {
-				// The decimal128 package keeps a 113-bit coefficient, so it
-				// still represents magnitudes up to about 1.038e6145, a little
-				// beyond the IEEE limit of 9.99...e6144. A finite, accurate
-				// result there is not an overflow turned into a value; the
-				// band is not judged.
-				c.Skip("overflow-boundary-not-judged")
-				return
+				// see d128Slack: the package's range ends somewhere inside this
+				// decade, not at 9.99...e6144
+				band = true
 			}
-			if lf > d128MaxExp {
+			if lf > d128MaxExp && !band {
 				expErr = model.NaN
 				exact = nil
 				label += "/overflow"
@@ -449,6 +452,10 @@ func TestC05_Arith(t *testing.T) {
 		switch {
 		case out.Panic != "":
 			msg = "library panicked: " + out.Panic
+		case band && out.Failed && out.Cats&model.NaN != 0 && expErr == 0 && expBool == nil:
+			// in the boundary decade an overflow error is as good as an
+			// accurate finite value (an infinite or NaN value is not)
+			label += "/overflow-boundary"
 		case expErr != 0:
 			if !out.Failed || out.Cats&expErr == 0 {
 				msg = fmt.Sprintf("expected a %v error, got %s", expErr.Names(), out)
